@@ -416,3 +416,77 @@ def run(ctx):
         ctx.check("C20.R6", "a union's branch is drawn over all its branches", plain, g.where(c), f"gen_data: branch drawn over `{norm(subj)}` = {[k for k, _ in value_sources(a, g, subj)] if isinstance(subj, ast.Name) else ''}", "leaving branches out (e.g. never 'null') makes a recursive type generate without end, and some conforming shapes are never produced")
     if checked == 0:
         ctx.unrecognised("C20.R6", "union arm of gen_data", g.where(), "no random draw over the branches of a union found")
+
+    # ---- R7 nested values come from gen_data applied to their own sub-schema ----------------------------------------
+    ctx.rule("C20.R7", "items of an array, values of a map and fields of a record are generated by gen_data from their own schema (the logical-type cases apply at every depth)", floor=2)
+    S7 = g.pos_params[0]
+    n7 = 0
+
+    def via_gen_data(e, key):
+        """the expression is gen_data(<schema>[key] or a name holding it, ..), possibly wrapped in a lambda / called name"""
+        if isinstance(e, ast.Call) and isinstance(e.func, ast.Name) and e.func.id == g.name and e.args:
+            a0 = e.args[0]
+            txt = norm(a0)
+            if key is None or f"['{key}']" in txt:
+                return True
+            if isinstance(a0, ast.Name):
+                return any(f"['{key}']" in norm(v) for v in assigned_values(g.node, a0.id))
+            return False
+        return False
+
+    def producers(e, key, depth=3):
+        """(ok, offending text): where the element expression `e` can come from"""
+        if via_gen_data(e, key):
+            return True, ""
+        if isinstance(e, ast.Call) and isinstance(e.func, ast.Name) and not e.args and not e.keywords and depth > 0:
+            vals = assigned_values(g.node, e.func.id)
+            if vals:
+                for v in vals:
+                    if isinstance(v, ast.Lambda) and not v.args.args:
+                        ok_, why_ = producers(v.body, key, depth - 1)
+                    elif isinstance(v, ast.Name):
+                        ok_, why_ = producers(ast.Call(func=v, args=[], keywords=[]), key, depth - 1)
+                    else:
+                        ok_, why_ = False, norm(v)[:70]
+                    if not ok_:
+                        return False, why_ or norm(v)[:70]
+                return True, ""
+        return False, norm(e)[:70]
+
+    for kind, key, where_elt in (("array", "items", "elt"), ("map", "values", "value"), ("record", "type", "value")):
+        for n in walk_local(g.node):
+            if not isinstance(n, ast.Return) or n.value is None:
+                continue
+            facts = true_facts(cfg, cfg.node_of(n))
+            if not any(f"'{kind}'" in x and ("==" in x or " in (" in x) for x in facts):
+                continue
+            v = n.value
+            if kind == "array" and isinstance(v, ast.ListComp):
+                elt = v.elt
+            elif kind in ("map", "record") and isinstance(v, ast.DictComp):
+                elt = v.value
+            else:
+                continue
+            n7 += 1
+            ok_, why_ = producers(elt, key)
+            ctx.check("C20.R7", f"gen_data {kind}: every nested value is gen_data(<its schema>)", ok_, g.where(n), f"gen_data {kind} arm: a nested value can be `{why_}`", "a nested value is produced without gen_data seeing its schema (e.g. chosen by the base type alone): a logical type annotation on the item is ignored and the value lies outside the domain its reader accepts (a date far outside date.min..date.max), so the generated datum cannot be read back")
+    if n7 < 2:
+        ctx.unrecognised("C20.R7", "nested generation", g.where(), f"only {n7} container arms with a comprehension over generated values found")
+
+    # ---- R8 decimals are generated without the ambient decimal context --------------------------------------------
+    ctx.rule("C20.R8", "the generator calls no context-dependent Decimal method without an explicit context (the ambient context has 28 digits: wider declared precisions round or raise InvalidOperation)", floor=1)
+    from .c16 import CONTEXT_DEPENDENT, _has_context
+
+    seen8 = 0
+    bad8 = []
+    for fn in helpers:
+        for n in ast.walk(fn.node):
+            if isinstance(n, ast.Call) and isinstance(n.func, ast.Attribute) and n.func.attr in CONTEXT_DEPENDENT - {"max", "min"}:
+                seen8 += 1
+                if not _has_context(n):
+                    bad8.append((fn, n))
+    for fn, n in bad8:
+        ctx.violation("C20.R8", f"{fn.qualname}: {n.func.attr}() with an explicit context", fn.where(n), f"{fn.qualname}: {norm(n)[:90]}", f"{n.func.attr}() works under the thread's ambient decimal context (28 significant digits by default): for a schema whose precision is larger the generator raises decimal.InvalidOperation (or returns a rounded value) instead of a conforming datum")
+    if not bad8:
+        ctx.holds("C20.R8", f"{len(helpers)} generator functions examined, {seen8} context-dependent Decimal calls, all with a context", g.where())
+
